@@ -13,6 +13,9 @@ import collections, enum, sys
 
 _PRIM = (int, float, str, bytes, bool, type(None))
 
+# code objects of library functions entered while the probe's profiler was active (API coverage report)
+CALLED_CODES = set()
+
 
 def snap(o, depth=0, seen=None):
     if seen is None:
@@ -75,6 +78,7 @@ class Recorder:
         from_adapter = back is not None and back.f_globals.get("__name__", "").startswith("harness.")
         is_init = frame.f_code.co_name == "__init__"
         if event == "call":
+            CALLED_CODES.add(frame.f_code)
             if is_init and from_adapter:
                 self.stack.append((id(frame), type(frame.f_locals.get("self")).__name__))
             return
@@ -199,3 +203,50 @@ def probe_pair(fn, case_a, case_b):
                 return ("caller-config-aliased", "a %s built by op %d keeps a reference to the caller's PduConfig: changing the "
                         "caller's object afterwards changed it" % (type(o).__name__, case_a[0]))
     return None
+
+
+def api_coverage(files):
+    """public API of the classes defined in the anchored source files vs what the profiled sample of
+    this run entered: {class: {"never_entered": [...]}} (property setters are listed as name=)"""
+    import importlib, inspect
+    out = {}
+    for f in files:
+        if not f.endswith(".py"):
+            continue
+        modname = f[:-3].replace("/", ".")
+        if modname.endswith(".__init__"):
+            modname = modname[:-9]
+        try:
+            mod = importlib.import_module(modname)
+        except Exception:
+            continue
+        for cname, cls in inspect.getmembers(mod, inspect.isclass):
+            if cls.__module__ != mod.__name__:
+                continue
+            missing, total = [], 0
+            for attr, v in vars(cls).items():
+                if attr.startswith("_") and attr not in ("__init__", "__eq__", "__hash__"):
+                    continue
+                if attr in ("__repr__", "__str__"):
+                    continue
+                codes = []
+                if isinstance(v, property):
+                    if v.fget is not None:
+                        codes.append((attr, v.fget))
+                    if v.fset is not None:
+                        codes.append((attr + "=", v.fset))
+                elif isinstance(v, (classmethod, staticmethod)):
+                    codes.append((attr, v.__func__))
+                elif inspect.isfunction(v):
+                    codes.append((attr, v))
+                for label, fn in codes:
+                    fn = inspect.unwrap(fn)
+                    code = getattr(fn, "__code__", None)
+                    if code is None:
+                        continue
+                    total += 1
+                    if code not in CALLED_CODES:
+                        missing.append(label)
+            if total:
+                out[cname] = {"public_callables": total, "never_entered_in_probe_sample": sorted(missing)}
+    return out
